@@ -484,7 +484,12 @@ def build(desc):
         spec = new_spec(desc)
         twin = None
         try:
-            twin = new_spec(dict(desc, consts=[[c, ty, _other_const(val)] for c, ty, val in desc.get('consts', [])]))
+            # (constants that are used as interval bounds keep their value: a window of val + 1 time units may be a million
+            #  samples long - seen as 'hang' in the seed sweep of round l, DESIGN 8.2)
+            import re
+            in_bounds = set(w for t in [desc['spec']] + list(desc.get('subspecs') or []) for iv in re.findall(r'\[[^\]]*\]', t)
+                            for w in re.findall(r'[A-Za-z_][A-Za-z_0-9]*', iv))
+            twin = new_spec(dict(desc, consts=[[c, ty, (val if c in in_bounds else _other_const(val))] for c, ty, val in desc.get('consts', [])]))
         except (ApiCrash, NumericOverflow):
             pass
         api('parse', spec.parse)
